@@ -419,6 +419,11 @@ def terminals_alphabet(g):
                 for ch in (lo, hi):
                     for v in (ch, ch.lower(), ch.upper()):
                         bs.update(v.encode("utf-8"))
+                # an interior character and the two neighbours just outside (ASCII ranges)
+                if ord(lo) < 127 and ord(hi) < 127 and ord(lo) <= ord(hi):
+                    for c in ((ord(lo) + ord(hi)) // 2, ord(lo) - 1, ord(hi) + 1):
+                        if 32 <= c < 127:
+                            bs.add(c)
         b = e.get("block")
         if b and b["bk"] == "PLab":
             bs.add(b["val"])
